@@ -508,6 +508,19 @@ class Histogram1D(ObjectWithBinning, HistogramBase):
         return kwargs
 
     @classmethod
+    def from_dict(cls, a_dict: Mapping[str, Any]) -> "Histogram1D":
+        histogram = super().from_dict(a_dict)
+        missed = a_dict.get("missed")
+        if not histogram.keep_missed and missed is not None and len(missed) == 3:
+            # The constructor records nothing for keep_missed=False; what had been recorded before
+            # the tracking was switched off (h.keep_missed = False, a + b) is still reported
+            missed_array = np.array(missed, dtype=float)
+            if not (histogram.dtype.kind in "iu" and np.isnan(missed_array).any()):
+                missed_array = np.array(missed, dtype=histogram.dtype)
+            histogram._missed = missed_array
+        return histogram
+
+    @classmethod
     def from_calculate_frequencies(
         cls: Type["Histogram1DType"],
         data: Optional[np.ndarray],
